@@ -126,6 +126,7 @@ package dig
 //@ pure func knotMono() Bool =
 //@   (forall m *constructorNode :: old(m.called) ==> m.called)
 //@   && (forall d *decoratorNode :: old(d.state) == decoratorOnStack ==> d.state == decoratorOnStack)
+//@   && (forall d *decoratorNode :: old(d.state) == decoratorCalled ==> d.state == decoratorCalled)
 //@   && $nrun >= old($nrun) && $ev >= old($ev) && $ncb >= old($ncb) && $nset >= old($nset)
 
 // interface-level contract of param.Build (every implementation states and proves the same clauses)
@@ -446,3 +447,100 @@ package dig
 //@   site call (dig.paramObjectField).Build #1: assert[C08:fields-built-in-given-scope] $arg0 == c
 //@   site call (dig.paramObjectField).Build #1: assert[C15:fields-built-in-queue-order] $recv == fields[$i]
 //@   site call (reflect.Value).Set #1: assert[C15:field-receives-its-own-value] $recv == fieldV(dest, fields[$i].FieldIndex) && $arg0 == ret(Build_1, 0)
+
+// ---------------------------------------------------------------------------
+// value groups (C10, C11, C12)
+
+//@ func (pt paramGroupedSlice) getDecoratedValues(c) (v, ok)
+//@   requires isScope(c)
+//@   allocates
+//@   let k = gkey(pt.Type, pt.Group)
+//@   let S = scopeOf(c)
+//@   ensures[C12:nearest-decorated-group] ok ==> exists j int :: 0 <= j && j < S.nanc
+//@        && (forall i int :: 0 <= i && i < j ==> !(k in S.anc[i].decoratedGroups))
+//@        && k in S.anc[j].decoratedGroups && v == S.anc[j].decoratedGroups[k]
+//@   ensures[C12:no-decorated-group-anywhere] !ok ==> (forall i int :: 0 <= i && i < S.nanc ==> !(k in S.anc[i].decoratedGroups))
+//@   loop range c.storesToRoot() #1: invariant[C12:decorated-groups-nearest-first] forall i int :: 0 <= i && i < $i ==> !(k in S.anc[i].decoratedGroups)
+
+//@ func (pt paramGroupedSlice) callGroupDecorators(c) (err)
+//@   requires isScope(c) && pt.Type != nil && kind(pt.Type) == kSlice()
+//@   modifies @knot
+//@   allocates
+//@   maypanic
+//@   let k = gkey(elem(pt.Type), pt.Group)
+//@   let S = scopeOf(c)
+//@   ensures[C03:knot-mono] knotMono()
+//@   onpanic[C03:knot-mono-panic] knotMono()
+//@   ensures[C12:every-enclosing-group-decorator-applied] err == nil ==> forall j int :: 0 <= j && j < S.nanc && decApplicable(S.anc[j], k) ==> S.anc[j].decorators[k].state == decoratorCalled
+//@   ensures[C11:no-group-decorators-nothing-runs] (forall j int :: 0 <= j && j < S.nanc ==> !(k in S.anc[j].decorators)) ==> err == nil && unchangedAll() && $nrun == old($nrun) && $ev == old($ev) && $ncb == old($ncb)
+//@   ensures[C13:group-decorator-error-wrapped] err != nil ==> is(err, errParamGroupFailed) && as(err, errParamGroupFailed).Key == k && as(err, errParamGroupFailed).Reason == ret(Call_1, 0)
+//@   loop for i >= 0 #1: invariant[C12:group-decorators-root-first] 0 - 1 <= i && i < S.nanc && len(stores) == S.nanc
+//@        && (forall j int :: i < j && j < S.nanc && decApplicable(S.anc[j], k) ==> S.anc[j].decorators[k].state == decoratorCalled)
+//@   loop for i >= 0 #1: invariant (forall j int :: 0 <= j && j < len(stores) ==> isScope(stores[j]) && scopeOf(stores[j]) == S.anc[j])
+//@   loop for i >= 0 #1: invariant[C03:knot-mono-loop] knotMono()
+//@   loop for i >= 0 #1: invariant[C11:nothing-ran-without-decorators] (forall j int :: 0 <= j && j < S.nanc ==> old(!(k in S.anc[j].decorators))) ==> unchangedAll() && $nrun == old($nrun) && $ev == old($ev) && $ncb == old($ncb)
+//@   site call (dig.decorator).Call #1: assert[C12:group-decorator-in-its-own-scope] isScope($arg0) && scopeOf($arg0) == S.anc[i] && $recv == S.anc[i].decorators[k]
+
+//@ func (pt paramGroupedSlice) callGroupProviders(c) (n, err)
+//@   requires isScope(c) && pt.Type != nil && kind(pt.Type) == kSlice()
+//@   modifies @knot
+//@   allocates
+//@   maypanic
+//@   let k = gkey(elem(pt.Type), pt.Group)
+//@   let S = scopeOf(c)
+//@   ensures[C03:knot-mono] knotMono()
+//@   onpanic[C03:knot-mono-panic] knotMono()
+//@   ensures[C10:feeder-count-non-negative] n >= 0
+//@   ensures[C10:every-visible-feeder-called] err == nil ==> forall j int, m int :: 0 <= j && j < S.nanc && 0 <= m && m < len(S.anc[j].providers[k]) ==> S.anc[j].providers[k][m].called
+//@   ensures[C13:group-provider-error-wrapped] err != nil ==> is(err, errParamGroupFailed) && as(err, errParamGroupFailed).Key == k && as(err, errParamGroupFailed).Reason == ret(Call_1, 0)
+//@        && is(recvOf(Call_1), ptr(constructorNode)) && as(err, errParamGroupFailed).CtorID == as(recvOf(Call_1), ptr(constructorNode)).id
+//@   loop range c.storesToRoot() #1: invariant[C10:feeders-of-nearer-scopes-called] forall j int, m int :: 0 <= j && j < $i && 0 <= m && m < len(S.anc[j].providers[k]) ==> S.anc[j].providers[k][m].called
+//@   loop range c.storesToRoot() #1: invariant[C03:knot-mono-loop] knotMono()
+//@   loop range c.storesToRoot() #1: invariant itemCount >= 0
+//@   loop range providers #1: invariant[C10:feeders-of-this-scope-called] (forall m int :: 0 <= m && m < $i ==> S.anc[$i1].providers[k][m].called)
+//@        && (forall j int, m int :: 0 <= j && j < $i1 && 0 <= m && m < len(S.anc[j].providers[k]) ==> S.anc[j].providers[k][m].called)
+//@   loop range providers #1: invariant[C03:knot-mono-loop2] knotMono()
+//@   site call (dig.provider).Call #1: assert[C08:feeder-sees-its-own-scope] is($recv, ptr(constructorNode)) && isScope($arg0) && scopeOf($arg0) == as($recv, ptr(constructorNode)).origS
+//@   site call (dig.provider).Call #1: assert[C03:feeder-is-registered-for-the-group] $recv == S.anc[$i1].providers[k][$i]
+
+//@ func shuffledCopy(rand, items) (r)
+//@   requires rand != nil
+//@   allocates
+//@   ensures[C10:shuffle-keeps-the-count] len(r) == len(items)
+//@   ensures[C10:shuffle-adds-no-member] forall i int :: 0 <= i && i < len(r) ==> exists j int :: 0 <= j && j < len(items) && r[i] == items[j]
+//@   ensures[C10:shuffle-is-injective] forall i int :: 0 <= i && i < len(r) ==> r[i] == items[ret(Perm_1, 0)[i]]
+//@   ensures fresh(r) || len(r) == 0
+//@   loop range rand.Perm(len(items)) #1: invariant[C10:shuffle-so-far] forall i int :: 0 <= i && i < $i ==> newItems[i] == items[ret(Perm_1, 0)[i]]
+//@   loop range rand.Perm(len(items)) #1: invariant len(newItems) == len(items) && fresh(newItems)
+//@   loop range rand.Perm(len(items)) #1: modifies elems(reflect.Value)
+
+//@ func (s *Scope) getValueGroup(name, t) (r)
+//@   requires s != nil
+//@   allocates
+//@   let k = gkey(t, name)
+//@   ensures[C10:group-read-keeps-the-count] len(r) == len(s.groups[k])
+//@   ensures[C10:group-read-adds-no-member] forall i int :: 0 <= i && i < len(r) ==> exists j int :: 0 <= j && j < len(s.groups[k]) && r[i] == s.groups[k][j]
+//@   ensures fresh(r) || len(r) == 0
+
+//@ func (pt paramGroupedSlice) Build(c) (v, err)
+//@   requires isScope(c) && pt.Type != nil && kind(pt.Type) == kSlice()
+//@   modifies @knot
+//@   allocates
+//@   maypanic
+//@   let kd = gkey(elem(pt.Type), pt.Group)
+//@   let S = scopeOf(c)
+//@   ensures[C03:knot-mono] knotMono()
+//@   onpanic[C03:knot-mono-panic] knotMono()
+//@   ensures[C12:group-decorators-first] ret(callGroupDecorators_1, 0) != nil ==> err == ret(callGroupDecorators_1, 0) && v == nil
+//@   ensures[C12:decorated-group-replaces-members] ret(callGroupDecorators_1, 0) == nil && ret(getDecoratedValues_1, 1) ==> err == nil && v == ret(getDecoratedValues_1, 0)
+//@        && sameSince(getDecoratedValues_1, @knot)
+//@   ensures[C11:soft-group-calls-no-feeder] pt.Soft ==> !reached(callGroupProviders_1)
+//@   ensures[C11:soft-undecorated-group-runs-nothing] pt.Soft && (forall j int :: 0 <= j && j < S.nanc ==> old(!(kd in S.anc[j].decorators))) ==> $nrun == old($nrun) && $ncb == old($ncb) && kept(constructorNode.called, decoratorNode.state)
+//@   ensures[C10:hard-group-calls-every-feeder] reached(storesToRoot_1) && !pt.Soft && err == nil ==> reached(callGroupProviders_1) && ret(callGroupProviders_1, 1) == nil
+//@   ensures[C10:feeder-error-returned] reached(callGroupProviders_1) && ret(callGroupProviders_1, 1) != nil ==> err == ret(callGroupProviders_1, 1) && v == nil
+//@   ensures[C10:as-many-members-as-stored] reached(storesToRoot_1) && err == nil ==> valid(v) && typ(v) == pt.Type
+//@   loop range stores #1: invariant[C10:result-is-a-slice-of-the-group-type] valid(result) && typ(result) == pt.Type
+//@   loop range stores #1: invariant len(stores) == S.nanc && (forall j int :: 0 <= j && j < len(stores) ==> isScope(stores[j]) && scopeOf(stores[j]) == S.anc[j])
+//@   site call (dig.containerStore).getValueGroup #1: assert[C10:members-read-from-every-enclosing-scope,C08:members-read-from-every-enclosing-scope] isScope($recv) && scopeOf($recv) == S.anc[$i]
+//@   site call (dig.containerStore).getValueGroup #1: assert[C10:members-of-this-group-only,C09:members-of-this-group-only] $arg0 == pt.Group && $arg1 == elem(pt.Type)
+//@   site call reflect.Append #1: assert[C10:every-member-appended] $arg0 == result && $arg1 == ret(getValueGroup_1, 0)
